@@ -3,6 +3,8 @@ package props
 // C03 - encoding any JSON-shaped Map or value as XML preserves all of its data.
 
 import (
+	"bytes"
+	"math"
 	"strings"
 	"testing"
 
@@ -18,6 +20,7 @@ type CaseC03 struct {
 	Prefix  string      `json:"prefix,omitempty"`
 	Ind     string      `json:"ind,omitempty"`
 	GoEmpty bool        `json:"go_empty,omitempty"`
+	PreFail bool        `json:"pre_fail,omitempty"` // failing encoder calls precede the call under test
 }
 
 func init() { register("C03", checkC03) }
@@ -28,6 +31,7 @@ func genC03(t *rapid.T) CaseC03 {
 	g := VGen{Keys: xmlKeyNames, Attrs: true, Nulls: true}
 	c := CaseC03{Mode: rapid.SampledFrom([]string{"map-xml", "map-indent", "any", "any-indent", "j2x"}).Draw(t, "mode")}
 	c.GoEmpty = rapid.IntRange(0, 3).Draw(t, "goempty") == 0
+	c.PreFail = rapid.IntRange(0, 3).Draw(t, "prefail") == 0
 	blanks := []string{"", " ", "  ", "\t"}
 	c.Prefix = rapid.SampledFrom(blanks).Draw(t, "prefix")
 	c.Ind = rapid.SampledFrom(blanks).Draw(t, "ind")
@@ -65,6 +69,20 @@ func genC03(t *rapid.T) CaseC03 {
 		}
 	}
 	return c
+}
+
+// failingEncodes calls the encoders with values they must reject; whatever they do, they must not
+// influence a later call (encoding is a function of the Map alone).
+func failingEncodes() {
+	bad := mxj.Map{"rec": map[string]interface{}{"name": "x", "tag": map[string]interface{}{"-id": nil}, "z": "tail"}}
+	bad.Xml()
+	bad.XmlIndent("", " ")
+	bad.XmlWriter(&bytes.Buffer{})
+	mxj.AnyXml(map[string]interface{}{"a": map[string]interface{}{"-b": []interface{}{1}}})
+	mxj.AnyXmlIndent([]interface{}{map[string]interface{}{"a": map[string]interface{}{"-b": nil}}}, "", " ")
+	(mxj.Map{"f": math.NaN(), "g": "x"}).Json()
+	(mxj.Map{"f": math.Inf(1)}).JsonIndent("", " ")
+	(mxj.MapSeq{"r": map[string]interface{}{"#attr": map[string]interface{}{"a": map[string]interface{}{"#text": nil, "#seq": 0}}, "e": map[string]interface{}{"#seq": "x"}}}).Xml()
 }
 
 func nestedClasses(v interface{}, out map[string]bool) {
@@ -109,6 +127,10 @@ func checkC03(c CaseC03, info *Info) *Failure {
 	mxj.XMLEscapeChars(true)
 	if c.GoEmpty {
 		mxj.XmlGoEmptyElemSyntax()
+	}
+	if c.PreFail {
+		failingEncodes()
+		info.Class("after failing encoder calls")
 	}
 	var x []byte
 	var err error
